@@ -19,7 +19,7 @@ import Nstd.Variant.Ieee
     <lit>  = n | b0 | b1 | d<16 hex digits> | i<int> | u<nat> | l<int> | q<nat> | s<hex>
 
   Observation after every op, for every variable:
-     `<type> <toBool> <toInt> <toUInt> <toInt64> <toUInt64> <toDouble is zero: z|n> <toString hex> <value> <value with refs>`
+     `<type> <toBool> <toInt> <toUInt> <toInt64> <toUInt64> <toDouble is zero: z|n> <toDouble bits: 16 hex digits | nan> <toString hex> <value> <value with refs>`
   (`<value with refs>`: every boxed Variant, nested ones included, carries `#<data->ref>` of its block),
   joined by ` | `, then ` # ` and the 6×6 matrix of `==` (row-major, `0`/`1`/`?`).
   `?` = the real code evaluates a double→integer cast that C leaves undefined.
@@ -148,9 +148,12 @@ def optInt : Option Int → String
   | some i => s!"{i}"
   | none => "?"
 
+/-- `toDouble()` as its bit pattern; every NaN prints as `nan` -/
+def dblTok (d : Nat) : String := if dIsNaN d then "nan" else hex16 d
+
 def obsVar (x : Val) : String :=
   s!"{x.type} {if x.toBool ieee then 1 else 0} {optInt (x.toInt ieee)} {optInt (x.toUInt ieee)} " ++
-  s!"{optInt (x.toInt64 ieee)} {optInt (x.toUInt64 ieee)} {if ieee.isZero (x.toDouble ieee) then "z" else "n"} " ++
+  s!"{optInt (x.toInt64 ieee)} {optInt (x.toUInt64 ieee)} {if ieee.isZero (x.toDouble ieee) then "z" else "n"} {dblTok (x.toDouble ieee)} " ++
   s!"{toHex (x.toStr ieee)} {render x}"
 
 def eqChar : Option Bool → String
